@@ -35,6 +35,9 @@ def norm(c):
 
 
 def cases(ctx):
+    # the very first comparisons of the process go to the comparator object that every default Archive() shares, with the
+    # smallest objective count first: whatever such an object remembers from its first use must not leak into later archives
+    yield "default_first", {"seed": ctx.subseed("df")}
     for i in range(ctx.pick(500, 24000)):
         yield "history", {"seed": ctx.subseed("h", i), "max_len": ctx.pick(40, 200)}
     for i in range(ctx.pick(400, 40000)):
@@ -148,6 +151,17 @@ def gen_history(r, length, m, kind):
 
 
 def run_case(ctx, name, params):
+    if name == "default_first":
+        r = ctx.rng("df", params["seed"])
+        for m in (1, 2, 3, 4, 6, 2, 1, 5):
+            for rep in range(4):
+                seq = gen_history(r, r.randint(3, 25), m, "default")
+                if not all(separated(a, b) for a, b in itertools.combinations(seq, 2)):
+                    continue
+                drive(ctx, "default", [0.1, 0.1], seq, "default_first")
+                ctx.count("default_comparator_histories_in_ascending_objective_count")
+        ctx.count("cases")
+        return
     if name == "history":
         r = ctx.rng("h", params["seed"])
         m = r.randint(1, 4)
